@@ -332,6 +332,9 @@ FLEET['G12'] = dict(
         ('tab', T('char', '\t')),
         ('del', T('char', '\x7f')),
         ('bang', T('char', '!')),
+        # pattern features not used elsewhere in the fleet: {n} repetition, '.', hex escape, optional group
+        ('hex', T('regex', '#[0-9a-f]{2}', 'hex', typed=True)),
+        ('at', T('regex', '@.(\\x2e.)?', 'at')),
     ],
     nterms=['text', 'item'],
     root='text',
@@ -342,6 +345,8 @@ FLEET['G12'] = dict(
         ('text', ['text', 'sp', 'item'], 'plain'),
         ('text', ['text', 'tab', 'item'], 'plain'),
         ('text', ['text', 'del', 'item'], 'ctx'),
+        ('item', ['hex'], 'plain'),
+        ('item', ['at', 'word'], 'plain'),
     ],
     values=['node'],
     prefer_no_skip_ws=True,
